@@ -149,6 +149,24 @@ fn check_field(ctx: &Ctx, field: &[u8], kind: &str, counting: bool) -> Result<()
 		ctx.sample_k("field", 5, || json!({"bytes": rt::hex(field), "expect": want.clone().map_err(|_| "Err")}));
 	}
 	let d = json!({"field": rt::hex(field)});
+	// decoding is a pure function of the field: whatever was decoded just before (successfully or
+	// not) must not influence it. The predecessor is derived from the field so a replay is self-contained.
+	match rt::hash_bytes(field) % 4 {
+		0 => {
+			// a valid character followed by a dangling lead byte: rejected
+			let _ = rt::guard(|| MeleeString::try_from(&[0x83u8, 0x41, 0x61, 0x82, 0x00][..]));
+		}
+		1 => {
+			let mut p = vec![0x82u8, 0x65, 0x82, 0x8f, 0x82, 0x98];
+			p.extend(field.iter().rev().take(4));
+			p.push(0x81);
+			let _ = rt::guard(|| MeleeString::try_from(&p[..]));
+		}
+		2 => {
+			let _ = rt::guard(|| MeleeString::try_from(&[0x82u8, 0x65, 0x82, 0x8f, 0x82, 0x98, 0x00][..]));
+		}
+		_ => {}
+	}
 	let got = rt::guard(|| MeleeString::try_from(field));
 	match (&want, &got) {
 		(Ok(w), Out::Ok(g)) if g.as_str() == w => {}
